@@ -45,6 +45,10 @@ class DocGen:
         self.kind = {}            # label -> kind
         self.nlab = 0
         self.use_index = rng.random() < 0.6
+        # how the index is written: \printindex, or the theindex environment makeindex generates (pasted / \input
+        # from the .ind file), or both; and whether it comes before or after the bibliography
+        self.index_form = rng.choice(['print', 'print', 'print', 'env', 'env'])      # (two indexes in one file repeat the group ids A, B, ...: not generated)
+        self.index_first = rng.random() < 0.3
         self.use_bib = rng.random() < 0.5
         self.bibkeys = ['key%s' % c for c in 'abc'[:rng.randint(1, 3)]] if self.use_bib else []
         self.toc_cmd = rng.random() < 0.5
@@ -209,11 +213,15 @@ class DocGen:
         items(self.pre)
         for s in self.sections:
             sec(s)
+        back = []
         if self.bibkeys:
-            out.append('\\begin{thebibliography}{9}' + ' '.join('\\bibitem{%s} Author %s' % (k, k) for k in self.bibkeys) +
-                       '\\end{thebibliography}')
+            back.append('\\begin{thebibliography}{9}' + ' '.join('\\bibitem{%s} Author %s' % (k, k) for k in self.bibkeys) +
+                        '\\end{thebibliography}')
         if self.use_index:
-            out.append('\\printindex')
+            env = '\\begin{theindex} ' + ' '.join('\\item %s, %d' % (rng.choice(WORDS), rng.randint(1, 9)) for _ in range(rng.randint(1, 3))) + ' \\end{theindex}'
+            idx = {'print': ['\\printindex'], 'env': [env], 'both': ['\\printindex', env]}[self.index_form]
+            back = idx + back if self.index_first else back + idx
+        out.extend(back)
         out.append('\\end{document}')
         return '\n'.join(out)
 
